@@ -24,3 +24,71 @@ Proof.
   intros Hinv Hsh nd Hin.
   destruct (computed_delta_nodes cs dg sched mtu x Hinv Hsh nd Hin) as (n & j & mv & _ & -> & Hs & _). exact Hs.
 Qed.
+
+(* ---- the version-prefix monitor (C07) ---- *)
+Lemma kvm_eqb_refl m : kvm_eqb m m = true.
+Proof.
+  unfold kvm_eqb. rewrite !(proj2 (bytes_eqb_eq _ _) eq_refl), N.eqb_refl. destruct (m_st m); reflexivity.
+Qed.
+Lemma kvms_eqb_refl l : kvms_eqb l l = true.
+Proof. induction l as [|m r IH]; cbn; [reflexivity|]. rewrite kvm_eqb_refl, IH. reflexivity. Qed.
+
+Lemma asc_kvms_iff l : forall lo, asc_kvms l lo = true <-> asc_from lo l.
+Proof.
+  induction l as [|m r IH]; intros lo; cbn [asc_kvms asc_from]; [tauto|].
+  rewrite andb_true_iff, N.ltb_lt, IH. tauto.
+Qed.
+
+Lemma asc_from_firstn' lo l : forall j, asc_from lo l -> asc_from lo (firstn j l).
+Proof.
+  revert lo. induction l as [|m r IH]; intros lo [|k]; cbn [firstn asc_from]; auto.
+  intros [A B]. split; [exact A|apply IH; exact B].
+Qed.
+
+Lemma last_kv_ver_in lo l : l <> [] -> exists m, In m l /\ last_kv_ver lo l = m_ver m.
+Proof.
+  revert lo. induction l as [|a l IHl]; intros lo Hne; [congruence|]. cbn [last_kv_ver].
+  destruct l as [|b l']; [exists a; split; [left; reflexivity|reflexivity]|].
+  destruct (IHl (m_ver a) ltac:(discriminate)) as (m & Hm & E). exists m. split; [right; exact Hm|exact E].
+Qed.
+
+Theorem computed_delta_passes_c07 cs dg sched mtu x :
+  cluster_inv cs -> delta_shape cs dg sched mtu x -> c07_delta_ok (cs_nodes cs) [] x = true.
+Proof.
+  intros Hinv Hsh. unfold c07_delta_ok. apply forallb_forall. intros nd Hin.
+  destruct (computed_delta_nodes cs dg sched mtu x Hinv Hsh nd Hin) as (n & j & mv & Hn & Hnd & _ & Hget & Hkvs).
+  cbn [in_ids existsb negb andb].
+  assert (Hid : d_id nd = sn_id n) by (rewrite Hnd; reflexivity).
+  rewrite Hid, Hget.
+  pose proof Hn as Hn0. unfold stale_nodes in Hn0. apply filter_map_in in Hn0 as ([i c] & He & Hcand).
+  destruct (stale_candidate_some _ _ _ _ Hcand) as (Hid' & Hcopy & _ & Hrest). cbn [fst snd] in *.
+  assert (Hci : copy_inv (sn_copy n)) by (rewrite Hcopy; eapply (cli_copies _ Hinv); exact He).
+  assert (Hasc : asc_from (sn_from n) (map kvm_of (sorted_of n))) by (apply stale_sorted_strict; exact Hci).
+  assert (Hltmax : sn_from n < c_max (sn_copy n)).
+  { destruct (match dg_get i dg with Some g => (g_gc g, g_max g) | None => (0, 0) end) as [dgc dmax].
+    destruct Hrest as [Hlt Hf]. rewrite Hf, Hcopy. destruct (_ && _); lia. }
+  (* the five conjuncts *)
+  assert (C1 : asc_kvms (d_kvs nd) (d_from nd) = true).
+  { rewrite Hnd. unfold node_piece. cbn [d_kvs d_from]. apply asc_kvms_iff. rewrite <- firstn_map.
+    apply asc_from_firstn'. exact Hasc. }
+  assert (C2 : kvms_eqb (d_kvs nd) (map kvm_of (filter (fun e => v_ver (snd e) <=? d_max nd) (stale_sorted (sn_copy n) (d_from nd)))) = true).
+  { rewrite <- Hkvs. apply kvms_eqb_refl. }
+  assert (C3 : (d_max nd =? 0) || (d_from nd <? d_max nd) = true).
+  { rewrite Hnd. unfold node_piece. cbn [d_max d_from].
+    destruct (sorted_of n) as [|e r] eqn:Es.
+    - destruct mv; [|reflexivity]. apply orb_true_iff. right. apply N.ltb_lt. exact Hltmax.
+    - destruct j as [|j]; [reflexivity|]. apply orb_true_iff. right. apply N.ltb_lt.
+      cbn [firstn map last_kv_ver]. cbn [map asc_from] in Hasc. destruct Hasc as [H1 H2].
+      assert (Hp : asc_from (m_ver (kvm_of e)) (map kvm_of (firstn j r))) by (rewrite <- firstn_map; apply asc_from_firstn'; exact H2).
+      pose proof (asc_from_lo _ _ Hp). lia. }
+  assert (C4 : d_max nd <=? c_max (sn_copy n) = true).
+  { apply N.leb_le. rewrite Hnd. unfold node_piece. cbn [d_max].
+    destruct (sorted_of n) as [|e r] eqn:Es; [destruct mv; lia|].
+    destruct (map kvm_of (firstn j (e :: r))) as [|m0 r0] eqn:Ek; [cbn; lia|].
+    destruct (last_kv_ver_in 0 (m0 :: r0) ltac:(discriminate)) as (m & Hm & ->).
+    rewrite <- Ek in Hm. apply in_map_iff in Hm as (e0 & <- & Hin0). apply in_firstn in Hin0.
+    rewrite <- Es in Hin0. unfold sorted_of in Hin0. apply in_stale_sorted in Hin0 as [_ Hin0].
+    destruct e0 as [k0 v0]. destruct (ci_range _ Hci _ _ Hin0) as [_ Hle]. exact Hle. }
+  assert (C5 : d_gc nd =? c_gc (sn_copy n) = true) by (rewrite Hnd; apply N.eqb_refl).
+  unfold c07_nd_ok. rewrite C1, C2, C3, C4, C5. reflexivity.
+Qed.
